@@ -166,7 +166,61 @@ def gen_scenario(rng, big=False):
         t = _atom_text(rng, rng.choice(keys), have)
         if t not in targets:
             targets.append(t)
-    return {"vdb": vdb, "src": src, "targets": targets, "kind": rng.choice(KINDS)}
+    return {"vdb": vdb, "src": src, "targets": targets, "kind": rng.choice(KINDS), "built": rng.random() < 0.7}
+
+
+def gen_built_scenario(rng):
+    """structured family around `built` installed packages whose recorded dependencies differ from their
+    source twins, and around candidate fallback inside one atom:
+      A  the first candidate of an atom is an INSTALLED package that gets rejected (dangling
+         RDEPEND/IDEPEND/PDEPEND), the next candidate is a SOURCE package whose DEPEND/BDEPEND needs a
+         further merge;
+      B  the converse: the first candidate is a SOURCE package that cannot be resolved, the next one is the
+         INSTALLED copy whose recorded DEPEND/BDEPEND no longer resolves (irrelevant for a built package),
+         and the target's highest version needs that dependency.
+    The atom is a target itself or a dependency of the target; upgrade / min-install / empty-tree."""
+    shape = rng.choice("AAB")
+    build = rng.choice(("depend", "bdepend"))
+    run = rng.choice(("rdepend", "rdepend", "idepend", "pdepend"))
+    src, vdb = [], []
+    if shape == "A":
+        iv = rng.choice(("2", "2", "3"))                       # installed copy tied or highest
+        sv = rng.choice(("2", "1")) if iv == "2" else rng.choice(("2", "1"))
+        vdb.append([f"a/bar-{iv}", "0", {run: "a/zz"}])        # rejected: dangling run-time dependency
+        sdeps = {build: rng.choice(("a/e", "a/e", ">=a/e-1", "|| ( a/zz a/e )"))}
+        if rng.random() < 0.3:
+            sdeps["rdepend"] = "a/e"
+        src.append([f"a/bar-{sv}", "0", sdeps])
+        if rng.random() < 0.3 and sv != "1":
+            src.append(["a/bar-1", "0", {build: "a/e"}])
+        src.append(["a/e-1", "0", {} if rng.random() < 0.6 else {rng.choice(CLASSES): "a/f"}])
+        src.append(["a/f-1", "0", {}])
+        if rng.random() < 0.25:
+            vdb.append(["a/f-1", "0", {}])
+        kind = rng.choice(("upgrade", "upgrade", "min"))
+    else:
+        src.append(["a/bar-2", "0", {rng.choice(CLASSES): "a/zz"}])      # newest source copy unresolvable
+        vdb.append(["a/bar-1", "0", {build: rng.choice(("a/old", "a/old", "=a/e-0.9"))}])
+        if rng.random() < 0.5:
+            src.append(["a/bar-1", "0", {} if rng.random() < 0.5 else {build: "a/e"}])  # twin, other deps
+        src.append(["a/e-1", "0", {}])
+        kind = rng.choice(("upgrade", "upgrade", "upgrade", "min"))
+    if rng.random() < 0.65 or shape == "B":
+        fdep = rng.choice(CLASSES)
+        src.append(["a/foo-3", "0", {fdep: rng.choice(("a/bar", "a/bar", ">=a/bar-1", "a/bar:0"))}])
+        src.append(["a/foo-2", "0", {}])
+        if rng.random() < 0.3:
+            vdb.append(["a/foo-2", "0", {}])
+        targets = ["a/foo"]
+    else:
+        targets = [rng.choice(("a/bar", "a/bar", ">=a/bar-1"))]
+    if rng.random() < 0.3:
+        src.append(["a/g-1", "0", {"rdepend": "a/e"}])
+        targets.append("a/g")
+        if rng.random() < 0.5:
+            targets.reverse()
+    rng.shuffle(src)
+    return {"vdb": vdb, "src": src, "targets": targets, "kind": kind, "built": True, "family": "built"}
 
 
 # --------------------------------------------------------------------------- implementation driver
@@ -184,6 +238,9 @@ class World:
         from pkgcore.test.misc import FakePkg, FakeRepo
 
         self.scn = scn
+        # "built": installed packages carry built=True (merge_plan then skips their DEPEND/BDEPEND unless
+        # process_built_depends); absent in older corpus entries = the FakePkg default (False)
+        self.built = bool(scn.get("built", False))
         self.vdb = FakeRepo(repo_id="vdb", livefs=True)
         self.src = FakeRepo(repo_id="src", livefs=False)
         self.pkgs = []      # real package objects, vdb first
@@ -205,6 +262,8 @@ class World:
                             alts.append((str(a), bool(a.blocks)))
                         cnf.append(alts)
                     cnfs[c] = cnf
+                if repo.livefs and self.built:
+                    object.__setattr__(p, "built", True)      # installed packages are built packages
                 lst.append(p)
                 self.pkgs.append(p)
                 self.meta.append((p.key, str(slot), repo.livefs, cnfs))
@@ -330,6 +389,8 @@ def py_check(w: World, ops):
         seen[ks] = p
     for p in planned:
         for c in CLASSES:
+            if w.meta[p][2] and w.built and c in ("depend", "bdepend"):
+                continue        # build-time dependencies of an already built package bind nothing
             for clause in w.meta[p][3][c]:
                 if len(clause) == 1 and clause[0][1]:
                     hit = (set(w.match[w.atom_id[clause[0][0]]]) & finset) - {p}
@@ -362,6 +423,9 @@ def c_world(w: World, ops):
     for key, slot, livefs, cnfs in w.meta:
         cls = []
         for c in CLASSES:
+            if livefs and w.built and c in ("depend", "bdepend"):
+                cls.append(clist([], "list N"))      # see py_check: build-time classes of a built package
+                continue
             cls.append(clist([c_nl(2 * w.atom_id[a] + (1 if b else 0) for a, b in clause) for clause in cnfs[c]],
                              "list N"))
         ps.append(f"P {kid[key]} {sid[slot]} {cbool(livefs)} {clist(cls)}")
@@ -582,7 +646,8 @@ def main(chk: Check):
     chk.lint(["C15"])
     chk.check_fingerprint(ANCHORS)
 
-    scns = corpus_scenarios() + run_stream(chk, chk.n(650, 15000)) + run_stream(chk, chk.n(70, 2000), big=True)
+    scns = (corpus_scenarios() + run_stream(chk, chk.n(600, 15000)) + run_stream(chk, chk.n(60, 2000), big=True)
+            + [gen_built_scenario(chk.rng) for _ in range(chk.n(120, 3000))])
     cases, worlds = [], []
     stats = {"ok": 0, "fail": 0, "crash": 0}
     prop_bad = []          # unclassified property failures (violations)
@@ -636,7 +701,7 @@ def main(chk: Check):
     # the harness's Python reading of the statement, so a mismatch is a disagreement between the two
     # readings (the Coq one is the proved one); the property verdict itself is reported below.
     if ok:
-        r = chk.coq_eval("plans", IMPORTS, "case", cases, ["mismatches run_check cases"], shard=350)
+        r = chk.coq_eval("plans", IMPORTS, "case", cases, ["mismatches run_check cases"], shard=250)
         if r is not None:
             chk.count("plans_checked_in_coq", len(cases))
             for i in r[0][:3]:
